@@ -196,8 +196,8 @@ size_t varintEliasDeltaEncode(varintBitWriter *w, uint64_t value) {
 uint64_t varintEliasDeltaDecode(varintBitReader *r) {
     /* Read length in Gamma code */
     uint64_t lenN = varintEliasGammaDecode(r);
-    if (lenN == 0) {
-        return 0; /* Decode error */
+    if (lenN == 0 || lenN > 64) {
+        return 0; /* Decode error: a 64-bit value has at most 64 bits */
     }
 
     size_t n = (size_t)lenN - 1;
